@@ -97,6 +97,14 @@ HandOk(s, from, to) == /\ from < to /\ from >= cur[s] /\ to <= arrived[s]
                        /\ \A b \in from..(to - 1) : b \notin disab[s]       \* a Disabled session delivers nothing
                        /\ ~ovfSeen[s]                                      \* overflow is terminal for the stream
 AllHanded(s, upto) == \A b \in cur[s]..(upto - 1) : b \in disab[s]
+\* A hand-over whose bytes are not one consecutive range (the buffer spans a dropped Disabled phase): Ev.runs lists the
+\* maximal runs from1,to1,from2,to2,...; every byte is deliverable and not behind the cursor, and whatever lies between the
+\* cursor and the last byte without being handed over belongs to a Disabled phase.
+RunBytes == UNION {Ev.runs[2 * i - 1]..(Ev.runs[2 * i] - 1) : i \in 1..(Len(Ev.runs) \div 2)}
+MultiRun == "runs" \in DOMAIN Ev /\ Len(Ev.runs) > 2
+HandOkRuns(s) == /\ RunBytes # {} /\ ~ovfSeen[s]
+                 /\ \A b \in RunBytes : b >= cur[s] /\ b < arrived[s] /\ b \notin disab[s]
+                 /\ \A b \in cur[s]..(Ev.to - 1) : b \notin RunBytes => b \in disab[s]
 \* A receive that returns bytes BEYOND the cursor although the bytes in between are deliverable: admissible only while another
 \* receive on the same session is in flight (it has taken them and its return line comes later); the skipped bytes are owed.
 SkipOk(s, from, to, me) ==
@@ -108,8 +116,9 @@ OwedOk(s, from, to) == from < to /\ to <= cur[s] /\ \A b \in from..(to - 1) : b 
 
 \* (a flush that hands over bytes beyond the cursor while a receive on the session is still in flight: see SkipOk)
 EvData == /\ IsEv("Data") /\ ~Ev.as
-          /\ \/ HandOk(Ev.s, Ev.from, Ev.to) /\ UNCHANGED owed
-             \/ /\ SkipOk(Ev.s, Ev.from, Ev.to, <<>>)
+          /\ \/ ~MultiRun /\ HandOk(Ev.s, Ev.from, Ev.to) /\ UNCHANGED owed
+             \/ MultiRun /\ HandOkRuns(Ev.s) /\ UNCHANGED owed
+             \/ /\ ~MultiRun /\ SkipOk(Ev.s, Ev.from, Ev.to, <<>>)
                 /\ owed' = [owed EXCEPT ![Ev.s] = @ \cup {b \in cur[Ev.s]..(Ev.from - 1) : b \notin disab[Ev.s]}]
           /\ cur' = [cur EXCEPT ![Ev.s] = Ev.to]
           /\ UNCHANGED <<arrived, arrDone, disab, closedAt, ovfSeen, maxBacklog, pendRecv, pendFlush>> /\ C04U /\ C02U /\ Keep0
@@ -125,11 +134,12 @@ EvRecvRet ==
     /\ pendRecv' = pendRecv \ {MyRecv}
     /\ LET s == Ev.s IN
        CASE Ev.res = "ok" ->
-              /\ Ev.to - Ev.from <= MyRecv[3] /\ UNCHANGED ovfSeen
-              /\ \/ HandOk(s, Ev.from, Ev.to) /\ cur' = [cur EXCEPT ![s] = Ev.to] /\ UNCHANGED owed
-                 \/ /\ SkipOk(s, Ev.from, Ev.to, MyRecv) /\ cur' = [cur EXCEPT ![s] = Ev.to]
+              /\ (IF "n" \in DOMAIN Ev THEN Ev.n ELSE Ev.to - Ev.from) <= MyRecv[3] /\ UNCHANGED ovfSeen
+              /\ \/ ~MultiRun /\ HandOk(s, Ev.from, Ev.to) /\ cur' = [cur EXCEPT ![s] = Ev.to] /\ UNCHANGED owed
+                 \/ MultiRun /\ HandOkRuns(s) /\ cur' = [cur EXCEPT ![s] = Ev.to] /\ UNCHANGED owed
+                 \/ /\ ~MultiRun /\ SkipOk(s, Ev.from, Ev.to, MyRecv) /\ cur' = [cur EXCEPT ![s] = Ev.to]
                     /\ owed' = [owed EXCEPT ![s] = @ \cup {b \in cur[s]..(Ev.from - 1) : b \notin disab[s]}]
-                 \/ /\ OwedOk(s, Ev.from, Ev.to) /\ owed' = [owed EXCEPT ![s] = @ \ (Ev.from..(Ev.to - 1))] /\ UNCHANGED cur
+                 \/ /\ ~MultiRun /\ OwedOk(s, Ev.from, Ev.to) /\ owed' = [owed EXCEPT ![s] = @ \ (Ev.from..(Ev.to - 1))] /\ UNCHANGED cur
          [] Ev.res = "PeerClosed" ->       \* only after every byte that arrived before the close was returned
               /\ closedAt[s] >= 0 /\ AllHanded(s, closedAt[s]) /\ ~ovfSeen[s]
               /\ UNCHANGED <<cur, ovfSeen, owed>>
